@@ -10,6 +10,23 @@ import shutil
 import subprocess
 import sys
 
+if sys.argv[1] == "--recheck":  # tools/save_seed.py --recheck <seed id> <check IDs...>: rerun the checks only, update meta.json
+    sid, checks = sys.argv[2], sys.argv[3:]
+    dst = pathlib.Path("/verif/seeded") / sid
+    meta = json.loads((dst / "meta.json").read_text())
+    res = subprocess.run(["/verif/tools/with_patch.sh", str(dst / "patch.diff"), *checks], capture_output=True, text=True)
+    lines = [l for l in res.stdout.splitlines() if l.strip()]
+    exits = {mm.group(1): int(mm.group(2)) for mm in (re.match(r"== (\S+) exit=(\d+)", l) for l in lines) if mm}
+    viol = [l[:300] for l in lines if l.startswith("VIOLATION")][:6]
+    prev = meta.get("check_result", {})
+    meta.setdefault("history", []).append({"exit": prev.get("exit"), "caught": prev.get("caught")})
+    meta["check_result"] = {"cmd": f"tools/with_patch.sh seeded/{sid}/patch.diff " + " ".join(checks), "exit": exits, "violations": viol,
+                            "caught": any(v == 1 for v in exits.values())}
+    (dst / "meta.json").write_text(json.dumps(meta, indent=1) + "\n")
+    print(sid, exits, "CAUGHT" if meta["check_result"]["caught"] else "missed")
+    for v in viol[:2]:
+        print("   ", v[:220])
+    sys.exit(0)
 src, sid, checks = pathlib.Path(sys.argv[1]), sys.argv[2], sys.argv[3:]
 dst = pathlib.Path("/verif/seeded") / sid
 dst.mkdir(parents=True, exist_ok=True)
